@@ -220,6 +220,18 @@ def shard_crafted(_, tier):
             tag = obs_of(poly.poly1305(key, pat(7, 0, n)))
             cases.append((prog(H(key), [P(7, 0, n)], "mraw s0"), ["-", "-", tag], None))
             cases.append((prog(H(key), [P(7, 0, 100), P(7, 100, n - 100)], "mraw s0"), ["-", "-", "-", tag], None))
+    # tags that are all zero are tags like any other (r = 0 and s = 0 for any message; s = 0 and the empty message for any r; s = -poly(m))
+    for key, msg in ((bytes(32), b""), (bytes(32), pat(5, 0, 16)), (bytes(32), pat(5, 0, 33)), (pat(5, 0, 16) + bytes(16), b""), (b"\xff" * 16 + bytes(16), b"")):
+        z = obs_of(poly.poly1305(key, msg))
+        assert z == "00" * 16
+        cases.append((prog(H(key), [H(msg) if msg else "h:"], "mresult s0"), ["-", "-", z], None))
+        cases.append((prog(H(key), [H(msg) if msg else "h:"], "mraw s0"), ["-", "-", z], None))
+    for r_, msg in ((pat(5, 0, 16), pat(6, 0, 21)), ((1).to_bytes(16, "little"), pat(6, 0, 16))):
+        t = int.from_bytes(poly.poly1305(r_ + bytes(16), msg), "little")
+        key = r_ + ((-t) % (1 << 128)).to_bytes(16, "little")
+        z = obs_of(poly.poly1305(key, msg))
+        assert z == "00" * 16
+        cases.append((prog(H(key), [H(msg)], "mresult s0"), ["-", "-", z], None))
     # asking twice, and starting over: a second result repeats the tag or refuses loudly (never other bytes), and after reset - whether
     # a tag was taken or input was abandoned mid-block - the object computes the tag of exactly the bytes that follow
     key = pat(5, 0, 32)
